@@ -130,4 +130,26 @@ theorem cn_step (cfg : Cfg) (s s' : State f) (l : Label) (hw : WF s) (hs : ST cf
   ⟨cn_step_fresh cfg s s' l hw hc h, cn_step_pre cfg s s' l hw hs hc h, cn_step_spawned cfg s s' l hw hs hc h,
    cn_step_exec cfg s s' l hw hs hc h, cn_step_post cfg s s' l hw hs hc h, cn_step_fin cfg s s' l hw hs hc h⟩
 
+
+/-- a segment of a request runs only after the request has been taken -/
+structure SD (s : State f) : Prop where
+  le : ∀ c k, segCount c k s.tr ≤ deqCount c s.tr
+
+theorem sd_init : SD (init f) := by
+  constructor; simp [init]
+
+theorem sd_step (cfg : Cfg) (s s' : State f) (l : Label) (hc : CN s) (hd : SD s)
+    (h : step cfg s l = some s') : SD s' := by
+  obtain ⟨d1⟩ := hd
+  have c4 := hc.exec
+  clear hc
+  cases l <;> step_inv h
+  all_goals (constructor; intro c' k'; have h1 := d1 c' k'; have h4 := c4 c'; clear d1 c4; cn_tac)
+
+theorem mem_deqOrder_of_count (c : Nat) (tr : List Ev) (h : 0 < deqCount c tr) : c ∈ deqOrder tr := by
+  induction tr with
+  | nil => simp at h
+  | cons e t ih =>
+    cases e <;> simp_all [deqOrder, isDeq] <;> grind
+
 end Remoc.Rfn
